@@ -65,6 +65,10 @@ def minimise(chk, case, cls, execute_case):
                 if chunk == 1:
                     break
                 n = min(len(ops), n * 2)
+    if (best.get("env") or {}).get("logging", "off") != "off":
+        cand = dict(best, env=dict(best["env"], logging="off"))
+        if test(cand):
+            best = cand
     # check-specific simplifications, to fixpoint (bounded)
     progress = True
     while progress and tried < MAX_TRIES and time.time() - t0 < MAX_WALL:
